@@ -279,6 +279,7 @@ class PathEnum:
         self.count = 0
         self.unroll = unroll
         self.truncated_loops = 0
+        self.tails = set(id(x) for x in tail_leaves(fn["body"]))
 
     # a path state is (events tuple, assumptions dict-as-tuple)
     def paths(self):
@@ -363,6 +364,17 @@ class PathEnum:
                 yield (e1 + (Ev("cond", c, truth),), a2, "normal", truth)
 
     def _exec(self, n, ev, asm):
+        if n is not None and id(n) in self.tails:
+            for (e1, a1, o1) in self._exec0(n, ev, asm):
+                if o1 == "normal":
+                    yield (e1 + (Ev("tail", n),), a1, o1)
+                else:
+                    yield (e1, a1, o1)
+        else:
+            for r in self._exec0(n, ev, asm):
+                yield r
+
+    def _exec0(self, n, ev, asm):
         if n is None:
             yield (ev, asm, "normal")
             return
@@ -537,6 +549,35 @@ class PathEnum:
                 yield (e1, a1, o1)
 
 
+def tail_leaves(n):
+    """Expressions in tail position of n whose value is n's value."""
+    if n is None:
+        return []
+    k = n.get("k")
+    if k == "Block":
+        if n.get("expr") is not None:
+            return tail_leaves(n["expr"])
+        return []
+    if k == "If":
+        return tail_leaves(n["then"]) + (tail_leaves(n["else"]) if n.get("else") is not None else [])
+    if k == "Match":
+        out = []
+        for a in n["arms"]:
+            out.extend(tail_leaves(a["body"]))
+        return out
+    return [n]
+
+
+def path_value(ev):
+    """The expression node whose value the path returns (tail leaf or `return e`), or None."""
+    for e in reversed(ev):
+        if e.kind == "ret":
+            return e.node.get("e")
+        if e.kind == "tail":
+            return e.node
+    return None
+
+
 def exits(paths):
     """Paths that leave the function normally (fall through or return), i.e. not diverging."""
     return [(ev, o) for (ev, o) in paths if o == "normal" or (isinstance(o, tuple) and o[0] == "ret")]
@@ -558,13 +599,16 @@ def index_of(ev, pred):
 def call_sites(body):
     """(callee, node) for every resolved call in a body, closures included."""
     out = []
+    fpos = set()
     for n in walk(body):
         k = n.get("k")
         if k in ("Call", "MethodCall"):
             c = callee(n)
             if isinstance(c, str):
                 out.append((c, n))
-        elif k == "Path" and n.get("res") == "def" and n.get("dk") in ("Fn", "AssocFn"):
+            if k == "Call":
+                fpos.add(id(peel(n["f"])))
+        elif k == "Path" and n.get("res") == "def" and n.get("dk") in ("Fn", "AssocFn") and id(n) not in fpos:
             # function used as a value (passed to map / and_then ...)
             out.append((n["path"], n))
     return out
@@ -696,3 +740,89 @@ READONLY_METHODS = {
     "core::option::Option::as_ref", "core::option::Option::unwrap_or", "core::fmt::Debug::fmt",
     "core::cmp::PartialEq::eq", "core::cmp::PartialEq::ne", "core::slice::<impl [T]>::contains",
 }
+
+
+# ------------------------------------------------------------------ guard context
+
+class Ctx:
+    """Structural index of one function: parents and the guard context of a program point."""
+
+    def __init__(self, fn):
+        self.fn = fn
+        self.parent = {}
+        stack = [(fn["body"], None, None, None)]
+        while stack:
+            x, p, k, i = stack.pop()
+            if isinstance(x, dict):
+                self.parent[id(x)] = (p, k, i)
+                for kk, v in x.items():
+                    if isinstance(v, dict):
+                        stack.append((v, x, kk, None))
+                    elif isinstance(v, list):
+                        for j, y in enumerate(v):
+                            if isinstance(y, dict):
+                                stack.append((y, x, kk, j))
+
+    def ancestors(self, n):
+        """(ancestor, key, index) from innermost to outermost; key/index locate the child."""
+        cur = n
+        while True:
+            p, k, i = self.parent.get(id(cur), (None, None, None))
+            if p is None:
+                return
+            yield (p, k, i)
+            cur = p
+
+    def guards(self, n):
+        """Guard context of n, outermost first:
+           ('if', cond, truth)       n is inside the then (True) / else (False) branch
+           ('arm', match, idx)       n is inside arm idx of match
+           ('guard', cond, True)     n is inside an arm whose guard is cond
+           ('not', cond, False)      an earlier statement `if cond { diverge/return }` of an enclosing block
+           ('let', stmt)             an earlier `let pat = init` of an enclosing block (for `x?` guards)"""
+        out = []
+        for (p, k, i) in self.ancestors(n):
+            pk = p.get("k")
+            if pk == "If":
+                if k == "then":
+                    out.append(("if", p["cond"], True))
+                elif k == "else":
+                    out.append(("if", p["cond"], False))
+            elif pk is None and "pat" in p and "body" in p and k == "body":
+                # match arm object
+                pp, kk, ii = self.parent.get(id(p), (None, None, None))
+                if pp is not None and pp.get("k") == "Match":
+                    if p.get("guard") is not None:
+                        out.append(("guard", p["guard"], True))
+                    out.append(("arm", pp, ii))
+            elif pk == "Block" and k in ("stmts", "expr"):
+                upto = i if k == "stmts" else len(p.get("stmts", []))
+                for st in reversed(p.get("stmts", [])[:upto]):
+                    sk = st.get("k")
+                    if sk in ("Expr", "Semi"):
+                        e = st["e"]
+                        if e.get("k") == "If" and e.get("else") is None and diverges(e["then"]):
+                            out.append(("not", e["cond"], False))
+                    elif sk == "Let":
+                        out.append(("let", st))
+            elif pk == "Closure":
+                out.append(("closure", p))
+        out.reverse()
+        return out
+
+
+def diverges(n):
+    """Does evaluating block/expression n never complete normally (return/break/continue/panic)?"""
+    if n is None:
+        return False
+    k = n.get("k")
+    if n.get("ty") == "!":
+        return True
+    if k in ("Ret", "Break", "Continue"):
+        return True
+    if k == "Block":
+        for st in n.get("stmts", []):
+            if st.get("k") in ("Expr", "Semi") and diverges(st["e"]):
+                return True
+        return diverges(n.get("expr")) if n.get("expr") is not None else False
+    return False
